@@ -30,6 +30,7 @@ func configs(r *mc.Run) []config {
 		for _, p := range []string{"TTEET", "ETTET"} {
 			out = append(out, config{pattern: p, peers: 3, caps: []int{2, 3}, cache: window, extra: true})
 		}
+		out = append(out, memConfigs(r)...)
 		return out
 	}
 	var pats []string
@@ -57,7 +58,30 @@ func configs(r *mc.Run) []config {
 			out = append(out, config{pattern: p, peers: 3, caps: []int{2, 3}, cache: window, extra: true})
 		}
 	}
+	out = append(out, memConfigs(r)...)
 	return out
+}
+
+// memConfigs: the memory cap of the result cache binds.  blockCacheMemory is
+// lowered (hook) to memCap bytes and the chain has blocks with one big
+// transaction ('B'): Results() feeds the size of every block it hands out into
+// the moving average resultSize (weight 0.1), and resultSlots allows only the
+// first ceil(memCap/resultSize) slots of the window once window*resultSize
+// exceeds the cap.  With a 'B' block of ~20.7 kB and small blocks of < 1 kB the
+// limit of a 4-slot window goes 4 -> 2 after the first imported B block and
+// -> 1 after a second one, and back up with small blocks: the limit moves WHILE
+// results further back in the window are already complete.
+const memCap = 3900
+
+func memConfigs(r *mc.Run) []config {
+	if r.Quick() {
+		return []config{{pattern: "BBTTT", peers: 2, caps: []int{2, 3}, cache: window, mem: memCap}}
+	}
+	return []config{
+		{pattern: "BBTTT", peers: 2, caps: []int{1, 2, 3}, cache: window, extra: true, mem: memCap},
+		{pattern: "BTTTT", peers: 2, caps: []int{2, 3}, cache: window, mem: memCap},
+		{pattern: "TBTBT", peers: 2, caps: []int{2, 3}, cache: window, mem: memCap},
+	}
 }
 
 // multiConfigs: consecutive sync cycles on ONE queue and peer set.
@@ -87,8 +111,8 @@ func multiConfigs(r *mc.Run) []config {
 func Run(r *mc.Run) {
 	r.Level = "model_checking"
 	setup()
-	r.Rule = "BFS to a fixpoint over every interleaving of: Schedule(next 1|2 headers), ReserveBodies(+FetchBodies) for any idle registered peer and request size, DeliverBodies of any shape (complete, partial prefix, empty, first/second body wrong, late answer to a given-up request, unsolicited), ExpireBodies (peer dropped when <=2 items timed out, idled otherwise, as fetchParts does), peer disconnect, Results; plus Revoke, Reserve+Cancel and lying header batches; states de-duplicated on the full bookkeeping of queue, peerConnections and PeerSet; distinct = distinct such states; liveness = backward reachability of completion over the recorded graph through moves of a fair environment with honest peer P1"
-	r.Rule += " || CONSECUTIVE SYNC CYCLES (systems queue<k>-...): the same BFS on ONE queue and peer set through k sync cycles; in every state of a cycle - completed, or cancelled right there with whatever is queued, in flight, done, ready or lacking - the op cycle(o,c) ends it and starts the next Synchronise exactly as spawnSync / synchronise / syncWithPeer do (queue.Close, queue.Reset, peers.Reset, Prepare(o)) for first block o and chain c: c = the chain just downloaded with every o from the ended cycle's origin up to one above the point its result window reached (import failure inside a handed-out batch / all taken / head advanced by the block fetcher), or c = the other chain (shares blocks 1..shared with it, different headers and bodies above) with every o in 1..shared+1 (ancestor at or below the fork point, also below the ended cycle's origin); requests in flight when a cycle ends are answered late in the next one (honest peer: always and first; arbitrary peers: possibly); the state key additionally holds cycle number, origin and chain; all oracles apply per cycle relative to ITS origin and chain (Results ascending, gap-free from the cycle's origin, exactly once, only headers of the cycle's chain, matching bodies; no abort; no lost task; completion of the cycle reachable from every state of it through fair moves) plus, directly after a cycle start: no task / request / done mark / result slot / header head / busy flag / lacking mark of the ended cycle is left, the window starts at o, the queue is open"
+	r.Rule = "BFS to a fixpoint over every interleaving of: Schedule(next 1|2 headers), ReserveBodies(+FetchBodies) for any idle registered peer and request size, DeliverBodies of any shape (complete, partial prefix, empty packet, first/second body wrong, hollow = a packet of as many bodies as requested each an EMPTY transaction list, hollow2 = genuine bodies with the second replaced by an empty list - requests only hold non-empty blocks, so an empty list is never the right body -, late answer to a given-up request, unsolicited), ExpireBodies (peer dropped when <=2 items timed out, idled otherwise, as fetchParts does), peer disconnect, Results; plus Revoke, Reserve+Cancel and lying header batches; states de-duplicated on the full bookkeeping of queue, peerConnections and PeerSet; distinct = distinct such states; liveness = backward reachability of completion over the recorded graph through moves of a fair environment with honest peer P1"
+	r.Rule += " || MEMORY CAP (systems queue-...-mem<cap>): the same BFS with blockCacheMemory lowered to <cap> bytes and chains holding blocks with one 20 kB transaction (B): Results() feeds the sizes of the blocks it hands out into the moving average resultSize, resultSlots then allows only the first ceil(cap/resultSize) slots of the 4-slot window (4 -> 2 -> 1 and up again along the chain) while results further back are already complete and blocks inside the limit are missing, in flight, expired or rejected; state key additionally holds resultSize and the slot limit; same safety and liveness oracles (a state where the download stays throttled with the honest peer idle is a dead state) || CONSECUTIVE SYNC CYCLES (systems queue<k>-...): the same BFS on ONE queue and peer set through k sync cycles; in every state of a cycle - completed, or cancelled right there with whatever is queued, in flight, done, ready or lacking - the op cycle(o,c) ends it and starts the next Synchronise exactly as spawnSync / synchronise / syncWithPeer do (queue.Close, queue.Reset, peers.Reset, Prepare(o)) for first block o and chain c: c = the chain just downloaded with every o from the ended cycle's origin up to one above the point its result window reached (import failure inside a handed-out batch / all taken / head advanced by the block fetcher), or c = the other chain (shares blocks 1..shared with it, different headers and bodies above) with every o in 1..shared+1 (ancestor at or below the fork point, also below the ended cycle's origin); requests in flight when a cycle ends are answered late in the next one (honest peer: always and first; arbitrary peers: possibly); the state key additionally holds cycle number, origin and chain; all oracles apply per cycle relative to ITS origin and chain (Results ascending, gap-free from the cycle's origin, exactly once, only headers of the cycle's chain, matching bodies; no abort; no lost task; completion of the cycle reachable from every state of it through fair moves) plus, directly after a cycle start: no task / request / done mark / result slot / header head / busy flag / lacking mark of the ended cycle is left, the window starts at o, the queue is open"
 	// part 1 (the queue under every interleaving; consecutive cycles first) gets the
 	// first share of the budget, part 2 (the real fetch loop, fetch.go) the rest
 	multiBudget, queueBudget, totalBudget := 30e9, 110e9, 215e9
@@ -120,6 +144,7 @@ func Run(r *mc.Run) {
 	r.Assume("the goroutine/timer layer of Downloader.Synchronise is not scheduled; the claim is for the scheduler data structure under every order of the calls that layer makes (FullSync mode, bodies only)")
 	r.Assume("peer P1 is honest for the whole run: it answers every request completely and in order, possibly after the request timed out; P2.. are arbitrary")
 	r.Assume("errPeersUnavailable (all idle peers lack the data) is not modelled; the honest peer never lacks data")
+	r.Assume("memory-cap configurations: instead of megabyte blocks against the production cap of 64 MiB, blockCacheMemory is lowered (hook VerifSetBlockCacheMemory) to 3900 bytes against blocks of ~20.7 kB / < 1 kB; resultSlots only reads the ratio cap/resultSize and the window length, receipts are not fetched (full sync)")
 	cfgs := configs(r)
 	if v := os.Getenv("C18_PEERS"); v != "" {
 		for i := range cfgs {
@@ -140,6 +165,11 @@ func Run(r *mc.Run) {
 		}
 		cfgs = sel
 	}
+	if v := os.Getenv("C18_MEM"); v != "" { // experiments: memory cap for the selected patterns
+		for i := range cfgs {
+			fmt.Sscan(v, &cfgs[i].mem)
+		}
+	}
 	explore := func(cfgs []config) []string {
 		var done []string
 		for _, cfg := range cfgs {
@@ -148,6 +178,7 @@ func Run(r *mc.Run) {
 				break
 			}
 			downloader.VerifSetBlockCacheItems(cfg.cache)
+			restore := setMemCap(cfg)
 			g := newGraph()
 			f := func() mc.System { return newSys(r, cfg, g) }
 			name := cfg.sysName()
@@ -157,6 +188,7 @@ func Run(r *mc.Run) {
 			liveness(r, cfg, g, name, exhaustive)
 			r.ConfirmSeq(name, f)
 			done = append(done, fmt.Sprintf("%s: %d states, exhaustive=%v, %.1f s", cfg.String(), n, exhaustive, time.Since(t0).Seconds()))
+			restore()
 		}
 		return done
 	}
@@ -169,6 +201,17 @@ func Run(r *mc.Run) {
 		return
 	}
 	r.SetExtra("configurations", explore(cfgs))
+}
+
+// setMemCap lowers blockCacheMemory for a configuration that asks for it and
+// returns the function that puts the previous value back (configurations are
+// explored one after the other; part 2 runs afterwards with the production value).
+func setMemCap(cfg config) func() {
+	if cfg.mem <= 0 {
+		return func() {}
+	}
+	old := downloader.VerifSetBlockCacheMemory(cfg.mem)
+	return func() { downloader.VerifSetBlockCacheMemory(old) }
 }
 
 func liveness(r *mc.Run, cfg config, g *graph, name string, exhaustive bool) {
@@ -241,6 +284,7 @@ func Replay(r *mc.Run, v *mc.Violation) {
 		return
 	}
 	downloader.VerifSetBlockCacheItems(cfg.cache)
+	defer setMemCap(cfg)()
 	g := newGraph()
 	sys := newSys(r, cfg, g)
 	obs, viols, err := mc.ReplaySeq(sys, v.Ops)
